@@ -115,6 +115,10 @@ let parse_enum () = match next () with
   | "_" -> None
   | "e" -> let ns = next_opt () in let en = next_bytes () in Some (ns, en)
   | s -> failwith ("enum " ^ s)
+let parse_ser () = match next () with
+  | "_" -> None
+  | "s" -> Some (next_bytes ())
+  | s -> failwith ("serial " ^ s)
 let parse_col_s () =
   let n = next_bytes () in
   let e = parse_enum () in
@@ -154,8 +158,9 @@ let parse_sub () = match next () with
   | "MC" ->
     let n = next_bytes () in
     let fe = parse_enum () in let te = parse_enum () in
-    let ty = next_bool () in let ser = next_bool () in let oth = next_bool () in let cm = next_bool () in
-    ModifyColumn (n, fe, te, ty, ser, oth, cm)
+    let fs = parse_ser () in let ts = parse_ser () in
+    let ty = next_bool () in let oth = next_bool () in let cm = next_bool () in
+    ModifyColumn (n, fe, te, fs, ts, ty, oth, cm)
   | "MI" -> let a = parse_idx () in let b = parse_idx () in let pa = next_bool () in let cm = next_bool () in ModifyIndex (a, b, pa, cm)
   | "MF" -> let a = parse_fk () in let b = parse_fk () in ModifyForeignKey (a, b)
   | "APK" -> AddPrimaryKey | "DPK" -> DropPrimaryKey | "MPK" -> ModifyPrimaryKey
@@ -178,11 +183,13 @@ let do_skel id =
   let q = next_opt () in
   let n = next_int () in
   let cs = times n parse_change_s in
-  let lines = Stdlib.List.map (fun ((rev, head), chains) ->
+  let show chains =
     let ch = Stdlib.List.map (fun c -> String.concat "." (Stdlib.List.map (fun b -> hex (string_of_bytes b)) c)) chains in
-    Printf.sprintf "%s %s %s %s" id (if rev then "r" else "c")
+    if ch = [] then "-" else String.concat "," ch in
+  let lines = Stdlib.List.map (fun (((rev, head), chains), lits) ->
+    Printf.sprintf "%s %s %s %s %s" id (if rev then "r" else "c")
       (String.concat "_" (String.split_on_char ' ' (string_of_bytes head)))
-      (if ch = [] then "-" else String.concat "," ch)) (plan_chains pg q cs) in
+      (show chains) (show lits)) (plan_obs pg q cs) in
   Stdlib.List.iter print_endline (Stdlib.List.sort compare lines)
 
 (* ---- the dialect's reader of a quoted identifier chain (Qual/Lexq.v lex_chain) *)
@@ -196,6 +203,17 @@ let do_lexq id =
     Printf.printf "%s chain=%s rest=%d\n" id
       (String.concat "." (Stdlib.List.map (fun b -> hex (string_of_bytes b)) l)) (int_len rest)
 
+(* ---- the statement-level scanner (Qual/StmtLex.v lex_stmt) *)
+let do_stmtlex id =
+  let pg = next_bool () in
+  let text = next_bytes () in
+  let ((chains, lits), bad) = lex_stmt pg text in
+  let hb b = let s = string_of_bytes b in if s = "" then "-" else hex s in
+  let j = function [] -> "_" | l -> String.concat "," l in
+  Printf.printf "%s chains=%s lits=%s bad=%s\n" id
+    (j (Stdlib.List.map (fun c -> String.concat "." (Stdlib.List.map hb c)) chains))
+    (j (Stdlib.List.map hb lits)) (if bad then "1" else "0")
+
 (* ---- Planner.plan, schema scope (Qual/Replay.v) *)
 let do_replay id =
   let q = next_opt () in
@@ -208,7 +226,10 @@ let do_replay id =
   let nd = next_int () in let des = times nd tab in
   let nm = next_int () in let mods = times nm next_bytes in
   let modified t1 _ = Stdlib.List.mem t1.rt_name mods in
-  match planner_plan modified q mode dev user objs cur des with
+  let is_ck = String.length id > 3 && String.sub id (String.length id - 3) 3 = ".ck" in
+  let res = if is_ck then planner_checkpoint modified q mode dev objs des
+            else planner_plan modified q mode dev user objs cur des in
+  match res with
   | PNoPlan -> Printf.printf "%s noplan\n" id
   | PPlanned -> Printf.printf "%s planned\n" id
   | PRejected r -> Printf.printf "%s rejected:%s\n" id (show_scope r)
@@ -229,6 +250,7 @@ let () =
         | "skel" -> do_skel id
         | "lexq" -> do_lexq id
         | "replay" -> do_replay id
+        | "stmtlex" -> do_stmtlex id
         | m -> failwith ("mode " ^ m)
       end
     done
